@@ -85,8 +85,12 @@ fn stepwise_unit<'a, R: Reader<Offset = usize>>(
     sel: u64,
 ) -> write::ConvertResult<()> {
     let (enc, lenc) = target_encodings(sel, unit.read_unit.encoding());
-    // the line program keeps the unit's own encoding unless the caller rewrites the unit too
-    let _ = enc;
+    // the caller may re-encode the unit (another version / format): a supported use
+    if let Some(enc) = enc {
+        if (sel >> 13) & 1 == 1 {
+            unit.unit.set_encoding(enc);
+        }
+    }
     if let Some(program) = unit.read_line_program(None, lenc)? {
         let (program, files) = program.convert(convert_address)?;
         unit.set_line_program(program, files);
